@@ -4916,7 +4916,8 @@ class Frame(ContainerOperand):
 
         if drop:
             blocks = TypeBlocks.from_blocks(
-                    self._blocks._drop_blocks(column_key=column_iloc))
+                    self._blocks._drop_blocks(column_key=column_iloc),
+                    shape_reference=self._blocks._shape) # all columns might be dropped
             columns = self._columns._drop_iloc(column_iloc)
             own_data = True
             own_columns = True
@@ -5000,7 +5001,8 @@ class Frame(ContainerOperand):
 
         if drop:
             blocks = TypeBlocks.from_blocks(
-                    blocks_src._drop_blocks(column_key=column_iloc))
+                    blocks_src._drop_blocks(column_key=column_iloc),
+                    shape_reference=blocks_src._shape) # all columns might be dropped
             columns = self._columns._drop_iloc(column_iloc)
             own_data = True
             own_columns = True
